@@ -68,7 +68,10 @@ class ConfScenario(WorldScenario):
         flag_b = r.pick([None, None, "slurm", "sge", "lsf", "local"])
         return {"op": "effect", "cmd": r.pick(["status", "status", "run"]), "b": flag_b,
                 "v": r.pick([None, None, "debug", "info", "warning"]),
-                "color": r.pick([None, None, "--no-color", "--use-color"]), "cwd": cwd}
+                "color": r.pick([None, None, "--no-color", "--use-color"]), "cwd": cwd,
+                # now and then the queue query fails for the whole invocation: a switched-off accounting
+                # database must not be consulted as a substitute
+                "down": r.pick([None, None, None, None, None, "F1", "F4"])}
 
     def apply_extra(self, w, op):
         kind = op["op"]
@@ -144,13 +147,22 @@ class ConfScenario(WorldScenario):
             os.environ["NO_COLOR"] = "1"
         else:
             os.environ.pop("NO_COLOR", None)
+        down = op.get("down") if selected == "slurm" else None
         try:
-            res = w.gwf(argv, op["cwd"])
+            res = w.gwf(argv, op["cwd"], cmd_faults=[("squeue", i, down) for i in (1, 2, 3, 4)] if down else ())
         finally:
             os.environ.pop("NO_COLOR", None)
         w.pending_violation = None  # crashes are judged below, with their own facets
         w.probe("effect_probes")
         cmds = [e for e, a, rc in res.cmd_log]
+        if down:
+            w.probe("effect_probes_with_queue_down")
+            if not conf.get("backend.slurm.accounting_enabled", True) and "sacct" in cmds:
+                w.flag("C20", "accounting_switch", "accounting_enabled=False but sacct was called when squeue failed",
+                       queue_down=True)
+            if op["cmd"] == "run" and res.accepted:
+                self.tracked_nonempty.add(selected)
+            return
         flav = {"slurm": {"sbatch", "squeue", "sacct", "scancel", "sinfo"}, "sge": {"qsub", "qstat", "qdel"},
                 "lsf": {"bsub", "bjobs", "bkill"}, "local": set()}
         lookalike = [k for k in conf if k.startswith("backend.") and k.split(".")[1] not in ("slurm", "sge", "lsf", "local")
